@@ -4,6 +4,7 @@ import (
 	"fmt"
 	"math/big"
 	"sort"
+	"strconv"
 	"strings"
 	"unicode/utf8"
 
@@ -26,9 +27,23 @@ var fragFieldNames = []*gen.Val{
 var fragStrings = []string{"b", "foo", "bar", "az", "ab", "aaa", "The Right Way", "it's", "x,y", "a, b", " lead", "trail ", "100%", "a_b", "back\\slash",
 	"O'Neil", "''", "semi;colon", "a||b", "x && y", "São Paulo", "日本(語)", "€5+tax", "00501", "09999", "10", "2.50", "1e3", "-7", "--c", "/*c*/", "é", "日本", "Z", "z", "zz", "", "5", "1.5", "NULL", "and", "x y z", "(p)", "[1 TO 2]", "q?", "s*r", "a\\", "tab\there", "new\nline"}
 
+// exactAsWritten: the decimal denotes exactly the number Go prints back for it
+// (the property's domain for numeric values).
+func exactAsWritten(v *gen.Val) bool {
+	if v.K != gen.VFloat {
+		return true
+	}
+	w, ok1 := new(big.Rat).SetString(v.Src)
+	p, ok2 := new(big.Rat).SetString(strconv.FormatFloat(v.F, 'g', -1, 64))
+	return ok1 && ok2 && w.Cmp(p) == 0
+}
+
 func genNumVal(rt *rapid.T) *gen.Val {
 	if rapid.IntRange(0, 2).Draw(rt, "isfloat") == 0 {
-		return gen.GenFloatVal().Draw(rt, "f")
+		if v := gen.GenFloatVal().Draw(rt, "f"); exactAsWritten(v) {
+			return v
+		}
+		return gen.Float("2.5")
 	}
 	if rapid.IntRange(0, 4).Draw(rt, "small") > 0 {
 		return gen.Int(rapid.IntRange(-20, 40).Draw(rt, "si"))
